@@ -28,7 +28,7 @@ ANCHORS = ["AND._evaluate__", "Union._evaluate__", "ElseIf._evaluate__", "Not._e
            "QueryObjectDescriptor.evaluate_selected_variables", "QueryObjectDescriptor.get_constrained_values"]
 
 FAMILIES = [("core", 30), ("rich", 25), ("flat", 8), ("sub", 6), ("E1", 6), ("E2", 5), ("forall", 6),
-            ("forall0", 3), ("msb", 6), ("msu", 2), ("core_ne", 5), ("fnfalsy", 1), ("forallz", 1), ("E2z", 1), ("porder", 4), ("scalar", 2), ("scalar0", 3), ("subscalar", 3), ("qnest", 7), ("qreuse", 2)]
+            ("forall0", 3), ("msb", 6), ("msu", 2), ("core_ne", 5), ("fnfalsy", 1), ("forallz", 1), ("E2z", 1), ("porder", 4), ("scalar", 2), ("scalar0", 3), ("subscalar", 3), ("qnest", 7), ("qreuse", 2), ("qq", 3)]
 
 
 def plan(tier):
@@ -81,6 +81,8 @@ def gen_family(rng, fam):
         return GEN.gen_exists(rng, "E2", falsy_lit=True)
     if fam == "qnest":
         return GEN.gen_quantifier_nest(rng)
+    if fam == "qq":
+        return GEN.gen_nested_quantifiers(rng)
     if fam == "qreuse":
         return GEN.gen_quantifier_nest(rng, reuse=True)
     if fam == "msb":
@@ -231,7 +233,8 @@ def _quantifier_info(spec, m, objs):
             info["empty_quantified_range"] = True
         if k == "exists" and negated and not free:
             info["neg_E1"] = True
-        walk(["not", c[2]] if negated else c[2], bound)
+        # for_all evaluates its condition once per value of its variable: the variable is bound there
+        walk(["not", c[2]] if negated else c[2], bound | ({c[1]} if eff == "forall" else set()))
 
     def walk(c, bound):
         """bound: the variables that an earlier conjunct has surely bound when this node is evaluated"""
@@ -268,6 +271,10 @@ def _exists_leaves_variable_bound(spec):
             le, lq = walk(c[1], False)
             re_, rq = walk(c[2], False)
             if k == "and" and le & rq:
+                found.append(le & rq)
+            # an or_ hands the bindings of a left side that is false on to its right side: they hold the witness of an
+            # exists that held inside that left side (not when the left side is the exists itself)
+            if k == "or" and c[1][0] not in ("exists", "forall") and le & rq:
                 found.append(le & rq)
             return le | re_, lq | rq
         if k == "not":
@@ -424,6 +431,16 @@ def witnesses():
                                                  ["and", ["exists", "x", ["cmp", "==", ["attr", ["var", "y"], "a"], ["attr", ["var", "x"], "a"]]],
                                                   ["forall", "x", ["cmp", "==", ["attr", ["var", "y"], "a"], ["attr", ["var", "x"], "a"]]]]],
                                                 [["var", "y"]], [X, Y]),
+        "exists-result-without-its-variable": _w(["and", ["cmp", ">=", ["attr", ["var", "y"], "a"], ["lit", 0]],
+                                                   ["exists", "x", ["or", ["cmp", "==", ["attr", ["var", "y"], "b"], ["lit", 1]],
+                                                                    ["cmp", "==", ["attr", ["var", "x"], "a"], ["lit", 1]]]]],
+                                                  [["var", "y"]], [X, Y]),
+        "forall-keeps-inner-witness": _w(["and", ["cmp", ">=", ["attr", ["var", "y"], "a"], ["lit", 0]],
+                                           ["forall", "x", ["exists", "z", ["cmp", "!=", ["attr", ["var", "z"], "a"], ["attr", ["var", "x"], "a"]]]]],
+                                          [["var", "y"]], [X, Y, {"name": "z", "type": "P", "dom": [0, 1], "kind": "list"}]),
+        "forall-first-condition-result-only": _w(['forall', 'x', ['forall', 'x2', ['or', ['cmp', '==', ['attr', ['var', 'x'], 'a'], ['attr', ['var', 'x2'], 'a']], ['cmp', '!=', ['attr', ['var', 'y'], 'a'], ['attr', ['var', 'x2'], 'b']]]]],
+                                                  [["var", "y"]], [{'name': 'x', 'type': 'P', 'dom': [0, 0], 'kind': 'list'}, {'name': 'y', 'type': 'P', 'dom': [2, 1], 'kind': 'list'}, {'name': 'x2', 'type': 'P', 'dom': [0, 1, 2], 'kind': 'list'}],
+                                                  world=[{'cls': 'P', 'a': 0, 'b': 1, 'items': [0], 'kids': [], 'ref': 0, 'd': {'k': 0}, 'name': 'o0', 'f': '0.0', 'fs': [0, 1, 2]}, {'cls': 'Q', 'a': 1, 'b': 0, 'items': [1, 2, 0], 'kids': [], 'ref': 2, 'd': {'k': 1}, 'name': 'o1', 'f': 'nan', 'fs': [1]}, {'cls': 'Q', 'a': 0, 'b': 1, 'items': [], 'kids': [], 'ref': 2, 'd': {'k': 1}, 'name': 'o2', 'f': '0.0', 'fs': []}]),
         "quantifier-yields-nothing-when-false": _w(["and", ["cmp", ">=", ["attr", ["var", "y"], "a"], ["lit", 0]],
                                                     ["or", ["forall", "x", ["cmp", "<", ["attr", ["var", "y"], "a"], ["attr", ["var", "x"], "a"]]],
                                                      ["forall", "x", ["cmp", ">=", ["attr", ["var", "y"], "a"], ["attr", ["var", "x"], "a"]]]]],
